@@ -109,7 +109,7 @@ def run(R):
         b = hc.block_of(alg)
         if b not in dcache:
             dcache[b] = gen_reuse(R, "digest", b, [0, 1, b - 1, b, b + 1])
-        use_all(dcache[b], {"cls": "digest", "alg": alg}, "reuse-digest", 1 if thorough else (0.06 if alg in hc.MD else 0.03))
+        use_all(dcache[b], {"cls": "digest", "alg": alg}, "reuse-digest", (1 if alg in hc.MD else 0.25) if thorough else (0.06 if alg in hc.MD else 0.03))
     R.extra["reuse_matrix_histories"] = nre
     cache = {}
     for alg in hc.FIXED:
